@@ -4,15 +4,15 @@ PLAN = {
     'C01': dict(level='proof', engines=['sumlib', 'segnative', 'tasknative', 'beatstruct']),
     'C02': dict(level='proof', engines=['tasknative']),
     'C03': dict(level='proof', engines=['bundles']),
-    'C04': dict(level='proof', engines=['keynative', 'matchnative', 'tasknative']),
+    'C04': dict(level='proof', engines=['keynative', 'matchnative', 'tasknative', 'multipitchnative']),
     'C05': dict(level='other', engines=['matchnative'],
                 explanation='The property is about the matcher bodies (Hopcroft-Karp, hit-window search, note-matching matrices); these are checked by exhaustive '
                             'small-scope enumeration against brute-force maximum matching (bounded stand-in, the property\'s own quantifier: all graphs up to 4x5) and are '
                             'NOT counted as proved. Discharged deductively: the circular-distance tolerance predicate, and - in the evidence of C01/C04/C06/C07/C08 - every '
                             'caller against the matcher contract "valid maximum matching of the stated predicate".'),
     'C06': dict(level='proof', engines=['forward', 'segnative', 'tasknative', 'matchnative']),
-    'C07': dict(level='proof', engines=['tasknative', 'matchnative', 'beatstruct']),
-    'C08': dict(level='proof', engines=['segnative', 'tasknative', 'multipitchnative']),
+    'C07': dict(level='proof', engines=['tasknative', 'matchnative', 'beatstruct', 'multipitchnative']),
+    'C08': dict(level='proof', engines=['segnative', 'tasknative', 'multipitchnative', 'matchnative']),
     'C09': dict(level='proof', engines=['chordnative', 'keynative', 'tasknative']),
     'C10': dict(level='proof', engines=['chordre']),
     'C11': dict(level='proof', engines=['chordnative']),
